@@ -96,6 +96,87 @@ Proof.
 Qed.
 Print Assumptions C10_split.
 
+(* ---------------- text level ---------------- *)
+Section Text.
+Import String Ascii.
+Local Open Scope string_scope.
+
+(* Printing then parsing: int(f"{k:d}") = k; float() of what '.2f' prints for q (with or without the
+   space flag, whatever blanks follow: the newline kept by readlines) is q rounded, in hundredths; the
+   sign slot carries the sign of the value itself, so a small negative value prints as -0.00 and reads
+   back as 0. *)
+Theorem C10_print_parse :
+  (forall k : nat, parse_nat (print_nat k) = Some k) /\
+  (forall (neg space : bool) (z : Z) (t : string), 0 <= z -> all_ws t = true ->
+     parse_dec2 (print_dec2 neg space z ++ t) = Some (if neg then - z else z)) /\
+  (forall (space : bool) (q : Q) (t : string), all_ws t = true ->
+     parse_dec2 (fmt2 space q ++ t) = Some (round2 q)).
+Proof.
+  split; [exact parse_print_nat|]. split; [intros; apply parse_print_dec2_t; assumption|].
+  intros; apply parse_fmt2_t; assumption.
+Qed.
+Print Assumptions C10_print_parse.
+
+(* line.split() of a record line gives the two printed indices and the value field, whose float() is
+   the rounded value; the line starts with a digit. *)
+Theorem C10_record_line : forall (i j : nat) (q : Q),
+  (exists w, split_ws (record_line i j q) = [print_nat i; print_nat j; w] /\ parse_dec2 w = Some (round2 q)) /\
+  (exists c r, record_line i j q = String c r /\ digitc c = true).
+Proof. intros. split; [apply split_ws_record | apply record_line_head]. Qed.
+Print Assumptions C10_record_line.
+
+(* One pass of the loader's loop body (any comment character cc that is not a digit: '#' and 'c' are
+   not): a record line appends (i, j, rounded value); the constant line sets the constant (it is the
+   only line of the file with '='); a comment line without '=' changes nothing. *)
+Theorem C10_load_line : forall (cc : ascii) (st : lstate),
+  (forall i j q, digitc cc = false ->
+     load_line cc st (record_line i j q) = Ok (mkL (l_entries st ++ [(i, j, round2 q)])%list (l_const st) (l_matlen st))) /\
+  (forall q, load_line cc st (const_line q) = Ok (mkL (l_entries st) (round2 q) (l_matlen st))) /\
+  (forall r, sall (not_char "=") r = true -> load_line cc st (String "#" r) = Ok st).
+Proof.
+  intros cc st. split; [intros; apply load_line_record; assumption|].
+  split; [intros; apply load_line_const | intros; apply load_line_comment; assumption].
+Qed.
+Print Assumptions C10_load_line.
+
+(* The lines of the file are the header comments and the printed records of the record-level export,
+   in the same order. *)
+Theorem C10_text_is_records : forall p : problem,
+  export_text p = (const_line (p_const p) :: "# Diagonal terms" :: map raw_line (raw_diag p) ++
+                   "# Off-Diagonal terms" :: map raw_line (raw_off p))%list /\
+  export_entries p = (round2 (p_const p), map raw_entry (raw_diag p ++ raw_off p)%list).
+Proof.
+  intros p. split; [apply export_text_raw|].
+  rewrite <- export_entries_raw. reflexivity.
+Qed.
+Print Assumptions C10_text_is_records.
+
+(* C10_roundtrip lifted to the lines of the file: load_matrix run on the timestamp comment (any text ts
+   without '=') followed by the lines written by export returns what load_entries returns on
+   export_entries; with C10_roundtrip / C10_energy_roundtrip this is the round trip through text. *)
+Theorem C10_roundtrip_text : forall (ising : bool) (ts : string) (p : problem),
+  sall (not_char "=") ts = true ->
+  load_text (comment_char ising) (String "#" ts :: export_text p) = Ok (load_entries (export_entries p)).
+Proof. intros ising ts p H. apply load_export_text; [destruct ising; reflexivity | exact H]. Qed.
+Print Assumptions C10_roundtrip_text.
+
+(* ... and to the bytes: the lines joined by newlines (no newline at the end), cut again by readlines()
+   (newline kept at the end of every line but the last), then load_matrix. *)
+Theorem C10_roundtrip_bytes : forall (ising : bool) (ts : string) (p : problem),
+  sall (not_char "=") ts = true -> sall (not_char nl) ts = true ->
+  load_bytes (comment_char ising) (export_bytes ts p) = Ok (load_entries (export_entries p)).
+Proof. intros ising ts p H1 H2. apply load_export_bytes; [destruct ising; reflexivity | exact H1 | exact H2]. Qed.
+Print Assumptions C10_roundtrip_bytes.
+
+Example C10_text_example :
+  let p := problem_of true 3 [[0; 33 # 32; 0]; [0; 0; 35 # 32]; [0; 0; 0]]%Q [-(49 # 32); -(21 # 8); -(1 # 256)]%Q (-(1 # 512))%Q in
+  export_text p = ["# Constant term of objective = -0.00"; "# Diagonal terms"; "0 0 -1.53"; "1 1 -2.62"; "2 2 -0.00";
+                   "# Off-Diagonal terms"; "0 1  1.03"; "1 2  1.09"] /\
+  sall (not_char "=") " Generated 2026-09-29 16:02:12.442343" = true /\
+  sall (not_char nl) " Generated 2026-09-29 16:02:12.442343" = true.
+Proof. vm_compute. repeat split; reflexivity. Qed.
+End Text.
+
 (* Non-vacuity: the Ising problem of Q = [[1,4,0],[1/8,1,4],[0,3/8,-2]], c = 1/8 (upper-triangular
    container): J = [[0,33/32,0],[0,0,35/32],[0,0,0]], h = (-49/32, -21/8, -3/32), constant 9/4. *)
 Example C10_example :
